@@ -36,3 +36,30 @@ package gemmill
 //@   atcall VerifyBytes set gCaSigOK = result
 //@   ensures  [admitted-only-validator-or-ca-signed] result == nil ==> (gIsVal && !gNonValAuth) || gCaSigOK
 //@   loop 0 invariant 0 <= $i && valset == *ppValidators && wfValSet(valset)
+
+// ---------------------------------------------------------------------------------------------
+// start-up reconciliation of block store, state and application heights (C06)
+
+// appReceiptsHashAt(h): the receipts hash the application returned when it committed height h (what the uncrashed
+// path stores into the state in CommitStateUpdateMempool)
+//@ spec appReceiptsHashAt(h Int) Bytes
+//@ ghost gLoaded Ref
+//@ ghost gLoadedH Int
+//@ func (*Angine).RecoverFromCrash
+//@   props C06
+//@   requires e != nil && e.blockstore != nil && e.stateMachine != nil
+//@   nosafety
+//@   let store = old(e.blockstore.height)
+//@   let sth = old(e.stateMachine.LastBlockHeight)
+//@   atcall LoadBlock set gLoaded = result
+//@   atcall LoadBlock set gLoadedH = arg_height
+//@   atcall ApplyBlock assert [only-stored-blocks-above-the-application-height-are-replayed-in-order] arg_block == gLoaded && gLoadedH == appBlockHeight + 1 + calls(ApplyBlock) && gLoadedH <= store
+//@   ensures [empty-store-nothing-to-do] store == 0 ==> result == nil && calls(ApplyBlock) == 0 && calls(LoadIntermediate) == 0
+//@   ensures [application-ahead-of-the-store-is-an-error] store != 0 && store < appBlockHeight ==> result != nil && calls(ApplyBlock) == 0
+//@   ensures [application-in-sync-is-never-re-executed] store != 0 && store == appBlockHeight ==> calls(ApplyBlock) == 0
+//@   ensures [crash-after-app-commit-loads-the-intermediate-state] store != 0 && store == appBlockHeight && !bytesEq(old(e.stateMachine.AppHash), appHash) ==> calls(LoadIntermediate) == 1 && e.stateMachine.AppHash == appHash
+// after a crash between the application's commit and the state save the recovered state must hold BOTH hashes the
+// application produced for that height, as the uncrashed node's state does
+//@   ensures [recovered-state-carries-the-application-receipts-hash] store != 0 && store == appBlockHeight && !bytesEq(old(e.stateMachine.AppHash), appHash) ==> bytesEq(e.stateMachine.ReceiptsHash, appReceiptsHashAt(appBlockHeight))
+//@   ensures [crash-before-app-commit-replays-the-stored-block-once] store != 0 && store == appBlockHeight + 1 && store == sth + 1 && result == nil ==> calls(ApplyBlock) == 1
+//@   loop 0 invariant appBlockHeight + 1 <= h && calls(ApplyBlock) == h - (appBlockHeight + 1) && e.blockstore.height == store && e.blockstore != nil && e.stateMachine != nil
